@@ -12,7 +12,7 @@ from __future__ import annotations
 import dataclasses
 import multiprocessing as mp
 
-from harness import common
+from harness import common, gen_targets
 from harness.common import Check, coq_Z, coq_bool
 
 META = {
@@ -387,6 +387,7 @@ def first_bad_step(spec, res) -> str:
 def run(ck: Check) -> None:
     common.assert_repo_imports()
     ck.coq_props()
+    gen_targets.run(ck)          # translator tie: Gallina regenerated from the source + coq/gen/EquivC04.v
     thorough = ck.tier == "thorough"
     ncases = 3000 if thorough else 208
     specs = []
@@ -504,6 +505,7 @@ def run(ck: Check) -> None:
     ]
     if leftovers not in ([], ["step"]):
         ck.notes.append(f"unexpected non-block state keys: {leftovers}")
+    ck.gen_equiv_verdict()
 
 
 def replay(obj) -> bool:
